@@ -15,7 +15,9 @@ PROPS = {
                        "domain (all 2^64 words, all k / p / start bits, all 8-word blocks, all 256 table rows) and compared with a "
                        "bit-at-a-time reference; loops are bounded by the operand width (64 bits / 8 bytes / 8 words) and unwinding "
                        "assertions are on, so each harness is a complete proof, not a bounded one. Dispatchers are checked with the "
-                       "CPU-feature flag nondeterministic, so both arms are covered on any host.",
+                       "CPU-feature flag nondeterministic, so both arms are covered on any host. scan_select / scan_scalar / "
+                       "scan_select_scalar, the property's observation points for the block popcount, are proved by Verus (unit c01_scan) "
+                       "for every slice, start word and rank (no bound).",
         "trusted_base": COMMON_TRUST + [MODELS + "_pdep_u64, _mm256_shuffle_epi8, _mm256_sad_epu8"],
         "assumptions": ["x86_64 only: NEON/SVE2 kernels and the AVX-512 popcount (feature simd) are not verified",
                         "real silicon implements PDEP/PSHUFB/PSADBW as the SDM pseudo-code says"],
